@@ -110,27 +110,38 @@ def o_smooth(a):
 
 
 def o_aux(a):
-    """generators with an auxiliary variable: slice by slice"""
+    """generators with an auxiliary variable: slice by slice. The auxiliary grid may be a phase (0–1), or mission times (1.5e8 + …, spacing
+    far below 1e-5 of the values); the density may be given as a callable or as a table of shape (len(rv), len(aux)), square or not"""
     from ixpeobssim.core.rand import xUnivariateAuxGenerator
-    g = numpy.random.default_rng(a['seed'])
-    x = numpy.linspace(0., 10., 41)
-    aux = numpy.linspace(0., 1., 6)
-    pdf = lambda xx, aa: (1. + aa) * numpy.exp(-0.5 * ((xx - 3. - 4. * aa) / (1. + aa)) ** 2) + 0.05
-    gen = xUnivariateAuxGenerator(x, aux, pdf, kx=1, ky=1)
+    nx, na = a.get('nx', 41), a.get('na', 6)
+    x = numpy.linspace(0., 10., nx)
+    off, span = a.get('offset', 0.), a.get('span', 1.)
+    aux = off + numpy.linspace(0., span, na)
+    rel = lambda aa: (numpy.asarray(aa, dtype=float) - off) / span
+    pdf = lambda xx, aa: (1. + rel(aa)) * numpy.exp(-0.5 * ((xx - 3. - 4. * rel(aa)) / (1. + rel(aa))) ** 2) + 0.05
+    if a.get('table'):
+        table = numpy.array([[float(pdf(xi, ai)) for ai in aux] for xi in x])          # documented layout: (len(rv), len(aux))
+        gen = xUnivariateAuxGenerator(x, aux, table, kx=1, ky=1)
+    else:
+        gen = xUnivariateAuxGenerator(x, aux, pdf, kx=1, ky=1)
     bad = []
-    for av in list(aux) + [0.37]:
+    for av in list(aux) + [off + 0.37 * span]:
         u = numpy.linspace(0., 1., 201)
         p = gen.ppf(u, numpy.full(u.shape, av))
         if (numpy.diff(p) < -1e-9).any():
-            bad.append('aux=%.2f: ppf not monotone in q' % av)
+            bad.append('aux=%r: ppf not monotone in q' % av)
         if abs(p[0] - x[0]) > 1e-6 or abs(p[-1] - x[-1]) > 1e-6:
-            bad.append('aux=%.2f: end points %r %r' % (av, float(p[0]), float(p[-1])))
+            bad.append('aux=%r: end points %r %r' % (av, float(p[0]), float(p[-1])))
         # against the slice cdf computed independently
         sl = pdf(x, av)
         c = numpy.concatenate([[0.], numpy.cumsum(0.5 * (sl[1:] + sl[:-1]) * numpy.diff(x))]); c /= c[-1]
         e = float(numpy.abs(numpy.interp(p, x, c) - u).max())
-        if e > (2e-2 if av not in aux else 5e-3):       # the common quantile grid is that of the middle slice: tabulation accuracy
-            bad.append('aux=%.2f: |cdf(ppf(u)) − u| up to %.3g' % (av, e))
+        if e > (2e-2 if av not in aux else 5e-3) * max(1., (41. / nx) ** 2):       # the common quantile grid is that of the middle slice: tabulation accuracy, second order in the grid step
+            bad.append('aux=%r: |cdf(ppf(u)) − u| up to %.3g' % (av, e))
+        # the slice the generator hands out is the density at that value of the auxiliary variable
+        s1 = gen.slice(av)(x)
+        if numpy.abs(s1 - sl).max() > (0.05 if av not in aux else 1e-9) * sl.max():
+            bad.append('aux=%r: slice() differs from the density at that auxiliary value by %.3g' % (av, float(numpy.abs(s1 - sl).max())))
     try:
         xUnivariateAuxGenerator(x, aux, lambda xx, aa: pdf(xx, aa) - 0.5, kx=1, ky=1)
         bad.append('a bivariate density that is negative somewhere was accepted')
@@ -190,7 +201,8 @@ def explore(chk, budget=1):
             yn = y.copy()
             yn[int(g.integers(0, len(y)))] = -float(g.choice([1e-9, 0.5]))
             run_oracle(chk, 'negative', dict(x=x.tolist(), y=yn.tolist(), k=int(g.choice([1, 3])) if len(x) > 3 else 1))
-    run_oracle(chk, 'aux', dict(seed=int(g.integers(1, 10 ** 6))))
+    for extra in (dict(), dict(offset=1.5e8, span=5000., na=11), dict(table=True, nx=41, na=6), dict(table=True, nx=41, na=41), dict(table=True, nx=24, na=24), dict(table=True, nx=16, na=16, offset=1.5e8, span=5000.)):
+        run_oracle(chk, 'aux', dict(seed=int(g.integers(1, 10 ** 6)), **extra))
     replies = drv.run()
     for (x, y, us, xs, ip, ic, nx, ny), rep in zip(jobs, replies):
         parts = rep.split(' | ')
@@ -237,5 +249,6 @@ def replay(body):
         ok, obs = ORACLES[r['oracle']](r['args'])
         out('oracle %s on the recorded input: %s %s' % (r['oracle'], 'holds' if ok else 'FAILS', obs))
         return 0 if ok else 1
-    out(body['what'])
-    return 1
+    import sys
+    import common
+    return common.replay_rerun(sys.modules[__name__], body)
